@@ -50,32 +50,45 @@ def templates(rng):
     return out
 
 
-def nested_scopes(depth):
-    """every way of binding / rebinding / reading two names across `depth` nested applied blocks:
-    per level a binding (none, let A, let B, parameter A, parameter B), a read before the nested
-    block (none, A, B), and at the innermost level a read of A, B or both; each binding has its
-    own value, so what a read yields identifies the binding it resolved to"""
+def nested_scopes(depth, rng=None, n=None):
+    """ways of binding / rebinding / reading two names across `depth` nested applied blocks:
+    per level a binding (none; let A / let B; parameter A / B of the block; a sub-scope `v (|A| ...)`
+    / `(|B| ...)` opened inside the block), a read (none, A, B, both) placed after a let or parameter
+    and BEFORE a sub-scope binder (so that a name can be captured and then shadowed), and at the
+    innermost level a read of A, B or both; each binding has its own value, so what a read yields
+    identifies the binding it resolved to.  All of them, or `n` drawn with `rng`."""
     import itertools as it
-    binds = ["", "la", "lb", "pa", "pb"]
-    reads = ["", "A", "B"]
+    binds = ["", "la", "lb", "pa", "pb", "sa", "sb"]
+    reads = ["", "A", "B", "A B"]
     last = ["A", "B", "A B"]
+
+    def make(bs, rs, fin):
+        def level(l):
+            v = 10 * l + (1 if bs[l].endswith("a") else 2)
+            name = "A" if bs[l].endswith("a") else "B"
+            rest = level(l + 1) if l < depth else fin
+            if bs[l] == "both":
+                body = ((rs[l] + " ") if l < depth else "") + rest
+            elif bs[l].startswith("s"):
+                body = "%s %d (|%s| %s)" % (rs[l] if l < depth else "", v, name, rest)
+            else:
+                body = ((rs[l] + " ") if l < depth else "") + rest
+                if bs[l].startswith("l"):
+                    body = "let %s := %d; %s" % (name, v, body)
+            if l == 0:
+                return ("let A := 1; let B := 2; " + body) if bs[0] == "both" else body
+            if bs[l].startswith("p"):
+                return "%d {|%s| %s} apply" % (v, name, body)
+            return "{%s} apply" % body
+        return " ".join(level(0).split())          # every read stays on the stack
+
+    space = [[b for b in binds if not b.startswith("p")] + ["both", "both"]] + [binds] * depth      # "both": A and B bound outside every block
+    if n is None:
+        return [make(bs, rs, fin) for bs in it.product(*space) for rs in it.product(*([reads] * depth)) for fin in last]
     out = []
-    for bs in it.product(["", "la", "lb"], *([binds] * depth)):
-        for rs in it.product(*([reads] * depth)):
-            for fin in last:
-                def level(l):
-                    v = 10 * l + (1 if bs[l].endswith("a") else 2)
-                    name = "A" if bs[l].endswith("a") else "B"
-                    body = (rs[l] + " " + level(l + 1)) if l < depth else fin
-                    if bs[l].startswith("l"):
-                        body = "let %s := %d; %s" % (name, v, body)
-                    if l == 0:
-                        return body
-                    if bs[l].startswith("p"):
-                        return "%d {|%s| %s} apply" % (v, name, body)
-                    return "{%s} apply" % body
-                out.append(" ".join(level(0).split()))          # every read stays on the stack
-    return out
+    for _ in range(n):
+        out.append(make([rng.choice(sp) for sp in space], [rng.choice(reads) for _ in range(depth)], rng.choice(last)))
+    return list(dict.fromkeys(out))
 
 
 def run(ctx):
@@ -92,11 +105,8 @@ def run(ctx):
     # prefixes make `let` bodies and blocks run for several inputs
     progs += ["(10, 20) " + p for p in templates(rng)]
     # two names bound, rebound and read across nested applied blocks
-    ns = nested_scopes(1) + nested_scopes(2)
     nrng = ctx.sub_rng("nested")
-    progs += ns if not quick else nested_scopes(1) + nrng.sample(nested_scopes(2), 700)
-    if not quick:
-        progs += nrng.sample(nested_scopes(3), 6000)
+    progs += nested_scopes(1) + (nested_scopes(2, nrng, 900) if quick else nested_scopes(2) + nested_scopes(3, nrng, 8000))
     g = zgen.G(ctx.sub_rng("gen"), max_depth=3, illtyped=0.02)
     for _ in range(1200 if quick else 20000):
         progs.append(g.program())
@@ -147,7 +157,7 @@ def run(ctx):
     ctx.cov.update({
         "evaluations": stats["evaluations"],
         "distinct_nontrivial": len([q for q in good if ("let " in q or "(|" in q or "[|" in q or "{" in q)]),
-        "rule": "programs built around names: ~60 templates (every binder form, shadowing, multi-yield let, blocks capturing 0-3 up-values at depths 1-3, applied 0/1/many times, read through names; 24 ill-scoped shapes incl. leaks out of every kind of context) with random fillers, each also behind a two-stack producer, + two names bound / rebound (let or parameter) and read at every level of 1-3 nested applied blocks (each binding with its own value), + random nested programs with names and blocks, + random programs damaged by dropping/duplicating a binder; non-trivial = compiles and contains a binder; accept/reject compared with the documented rules and with the model of build.cc, results with the engine model and the specification",
+        "rule": "programs built around names: ~60 templates (every binder form, shadowing, multi-yield let, blocks capturing 0-3 up-values at depths 1-3, applied 0/1/many times, read through names; 24 ill-scoped shapes incl. leaks out of every kind of context) with random fillers, each also behind a two-stack producer, + two names bound / rebound (let, parameter, or a sub-scope opened after the name was read) and read at every level of 1-3 nested applied blocks (each binding with its own value), + random nested programs with names and blocks, + random programs damaged by dropping/duplicating a binder; non-trivial = compiles and contains a binder; accept/reject compared with the documented rules and with the model of build.cc, results with the engine model and the specification",
         "samples": progs[:3] + progs[130:132],
         "compiler_verdicts": verdicts,
         "traces_validated_against_impl": stats["evaluations"],
